@@ -202,6 +202,9 @@ def search(ctx, budget):
     key = lambda z: (z != 6, z)
     for _ in range(n):
         zs = [rng.choice([1, 6, 7, 8, rng.randint(1, 103), rng.randint(1, 103)]) for _ in range(rng.randint(0, 14))]
+        if rng.random() < 0.2:      # counts with two and three digits (C10H8, C60, C100H202)
+            zs = [6] * rng.choice([10, 12, 60, 100, 123]) + [1] * rng.choice([8, 10, 11, 99, 202]) + zs[:3]
+            rng.shuffle(zs)
         ctx.case(["formula", zs], nontrivial=len(set(zs)) > 1)
         try:
             els = [E.Element[z] for z in zs]
